@@ -40,7 +40,7 @@ fn addr(x: usize) -> Address {
 #[kani::proof]
 #[kani::unwind(10)]
 #[kani::stub(mmtk::util::metadata::side_metadata::SideMetadataSpec::get_starting_address, stub_starting_address)]
-fn c37_offset_vector_and_forward() {
+fn c37_offset_vector_and_forward_exp() {
     // region start: 1 MiB aligned, symbolic
     let r: usize = kani::any();
     kani::assume(r % (1 << 20) == 0 && r >= (1 << 20) && r <= (1usize << 46));
@@ -128,6 +128,54 @@ fn c37_offset_vector_and_forward() {
     kani::cover!(n == 2 && z0 > 70 && s0 > 3 && (s0 + z0) / 64 == s1 / 64, "C37.cover.object_covers_a_whole_block_and_another_follows_in_its_last_block");
     kani::cover!(n == 3 && s1 / 64 != (s1 + z1 - 1) / 64, "C37.cover.object_spans_one_block_boundary");
     kani::cover!(n == 0, "C37.cover.empty_region");
+    std::mem::forget(marks);
+    std::mem::forget(offs);
+}
+
+/// Lighter variant for the quick tier: exactly two live objects in the three-block prefix, the forwarding address of
+/// the second one and a symbolic offset-vector entry are checked (object 0 may cover a whole block).
+#[kani::proof]
+#[kani::unwind(8)]
+#[kani::stub(mmtk::util::metadata::side_metadata::SideMetadataSpec::get_starting_address, stub_starting_address)]
+fn c37_two_objects_forward_second() {
+    let r: usize = kani::any();
+    kani::assume(r % (1 << 20) == 0 && r >= (1 << 20) && r <= (1usize << 46));
+    let mut marks = Marks([0; BLOCKS * 8 + 8]);
+    let mut offs = Offsets(kani::any());
+    let mark_addr = Address::from_mut_ptr(marks.0.as_mut_ptr()).as_usize();
+    let ov_addr = Address::from_mut_ptr(offs.0.as_mut_ptr()).as_usize();
+    kani::assume(r / 64 <= mark_addr && r / 64 <= ov_addr);
+    unsafe {
+        MARK_START = mark_addr - r / 64;
+        OV_START = ov_addr - r / 64;
+    }
+    let (s0, z0, s1, z1): (usize, usize, usize, usize) = (kani::any(), kani::any(), kani::any(), kani::any());
+    kani::assume(z0 >= 2 && z1 >= 2 && s0 < WORDS && s0 + z0 <= WORDS && s1 >= s0 + z0 && s1 < WORDS && s1 + z1 <= WORDS);
+    marks.0[s0 / 8] |= 1 << (s0 % 8);
+    marks.0[(s0 + z0 - 1) / 8] |= 1 << ((s0 + z0 - 1) % 8);
+    marks.0[s1 / 8] |= 1 << (s1 % 8);
+    marks.0[(s1 + z1 - 1) / 8] |= 1 << ((s1 + z1 - 1) % 8);
+    let fm = cf::ForwardingMetadata::<KVM0>::new();
+    cf::calculate_offset_vector(&fm, addr(r), addr(r + BLOCKS * 512));
+    assert!(fm.forward(addr(r + 8 * s1)).as_usize() == r + 8 * z0, "C37.forward.second_object_follows_the_first");
+    let b: usize = kani::any();
+    kani::assume(b < BLOCKS);
+    let bw = b * 64;
+    let entry = offs.0[b] as usize;
+    let (mut total, mut inside, mut from) = (0usize, false, 0usize);
+    if bw > s0 {
+        if bw >= s0 + z0 { total += 8 * z0 } else { inside = true; from = s0 }
+    }
+    if bw > s1 {
+        if bw >= s1 + z1 { total += 8 * z1 } else { inside = true; from = s1 }
+    }
+    if inside {
+        assert!(entry & 1 == 1 && (entry & !1) == r + total + 8 * (bw - from), "C37.offset_vector.entry_inside_object");
+    } else {
+        assert!(entry == r + total, "C37.offset_vector.entry_is_live_bytes_before_block");
+    }
+    kani::cover!(z0 > 70 && s0 > 3 && (s0 + z0) / 64 == s1 / 64, "C37.cover.object_covers_a_whole_block_and_another_follows_in_its_last_block");
+    kani::cover!(s1 / 64 != (s1 + z1 - 1) / 64 && z0 < 10, "C37.cover.second_object_spans_a_block_boundary");
     std::mem::forget(marks);
     std::mem::forget(offs);
 }
